@@ -7,12 +7,17 @@
   First sentence (each write lands on a free block, the object's own blocks, its directories' metadata or a sibling's
   chain link): proved here for `adfRemoveEntry` (volumes without directory cache) in its sharpest form — the only
   block written besides the bitmap is the directory or the chain predecessor, with exactly one word replaced — for
-  every disk content and fault schedule.  For the other operations it is decided on the real code by classifying every
+  every disk content and fault schedule; for `adfSetEntryAccess` / `adfSetEntryComment` (at most one block); and for
+  creation — `adfCreateEntry`, `adfCreateFile`, `adfCreateDir` (volumes without directory cache): one link write (the
+  directory block where its self pointer says, or the chain's last entry — a block of the disk — with only its link word
+  replaced), then one write to a block the bitmap had free when the call began, then a bitmap update; nothing else.
+  For the other operations it is decided on the real code by classifying every
   device write of every operation against the independent decoder's ownership map (tools/props/C18.py), the model being
   tied to those writes trace-exactly.  (MANIFEST: partial.)
 -/
 import AdfProofs.BitmapOrder
 import AdfProofs.WriteSetLemmas
+import AdfProofs.CreateWriteSet
 namespace Adf.C18
 open Adf
 
@@ -133,5 +138,28 @@ theorem C18_comment_write_set (c : Cfg) (v parSect : Nat) (name cmt : Bytes) (s 
     Post AnyFault c (setEntryComment v parSect name cmt) s (fun _ s' =>
       ∃ W, writesOf s'.trace = W ++ writesOf s.trace ∧ OneWriteTo c v W) :=
   setEntryComment_write_set c v parSect name cmt s hnc
+
+/-- **write set of `adfCreateEntry`** (every directory block, name, chain content, volume state, fault schedule): nothing,
+    or exactly one block — the directory itself or the chain's last entry with only its link word replaced; the entry
+    exists iff that write succeeded; the block handed out was free -/
+theorem C18_create_entry_write_set (c : Cfg) (v : Nat) (dir : Blk) (name : Bytes) (s : St) :
+    Post AnyFault c (createEntry v dir name) s (fun r s' => ∃ W, writesOf s'.trace = W ++ writesOf s.trace ∧
+      CreateEntryW c s.disk v dir (s.mem.vol v).bitmapTable r.1 W ∧ s'.clock = s.clock) :=
+  createEntry_write_set c v dir name s
+
+/-- **write set of `adfCreateFile`** (volumes without directory cache): the link write, then the new header on a block that
+    was free, then a bitmap update in its fixed order — at every interruption point no block of another file is touched -/
+theorem C18_create_file_write_set (c : Cfg) (v nParent : Nat) (name : Bytes) (s : St)
+    (hnc : isDIRCACHE (c.vol v).dosType = false) :
+    Post AnyFault c (createFile v nParent name) s (fun _ s' => ∃ W, writesOf s'.trace = W ++ writesOf s.trace ∧
+      CreateWrites c s.disk v (blkOfBytes ((s.sector (vsect c v nParent)).take 512)) (s.mem.vol v).bitmapTable W) :=
+  createFile_write_set c v nParent name s hnc
+
+/-- **write set of `adfCreateDir`** (volumes without directory cache): the same shape -/
+theorem C18_create_dir_write_set (c : Cfg) (v nParent : Nat) (name : Bytes) (s : St)
+    (hnc : isDIRCACHE (c.vol v).dosType = false) :
+    Post AnyFault c (createDir v nParent name) s (fun _ s' => ∃ W, writesOf s'.trace = W ++ writesOf s.trace ∧
+      CreateWrites c s.disk v (blkOfBytes ((s.sector (vsect c v nParent)).take 512)) (s.mem.vol v).bitmapTable W) :=
+  createDir_write_set c v nParent name s hnc
 
 end Adf.C18
